@@ -8,7 +8,7 @@ opened with yanny(path, raw=True)); a job with a 'text' field starts from that t
 yanny(path, raw=raw) (hand-written files: char columns of undeclared length).  The clock used by yanny.append() is patched: every op carries its own
 'clock' text, so the '# Appended by yanny.py at <clock>.' line is deterministic.
 
-OP  {'op': 'write', 'path': name|None, 'comments': [str]}
+OP  {'op': 'write', 'path': name|None, 'comments': [str] | str | None, 'cform': 'list'|'tuple'|'str'|'none'|'absent', 'clock': str}
     {'op': 'append', 'entries': [ENTRY], 'clock': str}
     {'op': 'append_missing', 'path': name, 'entries': [ENTRY], 'clock': str}   (filename temporarily set to a missing file)
     {'op': 'reread'}
@@ -201,9 +201,15 @@ def run_history(job, workdir):
                 handed = None
                 if op['op'] == 'write':
                     target = os.path.join(dirname, op['path']) if op['path'] is not None else None
-                    handed = list(op['comments'])
+                    # round 6: the comments option in every form the docstring allows -- a list (default here), a tuple,
+                    # ONE string (op['comments'] is then a str), None (the time-stamped default header), or not given
+                    cform = op.get('cform', 'list')
+                    handed = {'list': list, 'tuple': tuple, 'str': str}.get(cform, lambda x: None)(op.get('comments'))
                     fp0 = fingerprint(handed)
-                    par.write(target, comments=handed)
+                    if cform == 'absent':
+                        par.write(target)
+                    else:
+                        par.write(target, comments=handed)
                 elif op['op'] == 'append':
                     handed = build_dict(doc, op['entries'])
                     fp0 = fingerprint(handed)
